@@ -565,6 +565,18 @@ func (u *Unit) specCall(st *State, e *SExpr, env *SpecEnv, q *bool) *Val {
 		a := ev(0)
 		uf := u.d.fun("fn!errors.As!"+u.asTypeName(env, args[1].Name), []string{SInt}, SBool)
 		return boolVal(app(uf, a.S))
+	case "mk": // mk("T", f1, f2, ...): the struct value of named type T with the given fields in declaration order
+		t := u.resolveType(env.pkg, args[0].Name)
+		sd := structOf(t)
+		if sd == nil || sd.NumFields() != len(args)-1 {
+			u.eng.specError("%s: mk(%s) needs one argument per field", env.what, args[0].Name)
+			return boolVal("true")
+		}
+		v := &Val{T: t, Fields: map[string]*Val{}}
+		for i := 0; i < sd.NumFields(); i++ {
+			v.Fields[sd.Field(i).Name()] = ev(i + 1)
+		}
+		return v
 	case "errorsAsVal":
 		a := ev(0)
 		uf := u.d.fun("fn!errors.AsVal!"+u.asTypeName(env, args[1].Name), []string{SInt}, SInt)
